@@ -671,7 +671,13 @@ async fn run(lines: Vec<String>, out: &mut Out) {
 					}
 					(Ok((resp, _)), None) => {
 						let code = if resp.get().contains("-32602") { "E:-32602".to_string() } else { format!("E:other:{}", hexs(resp.get())) };
-						let orc = if resp.get().contains("-32602") { Ok(()) } else { Err(format!("undecodable params answered {}", resp.get())) };
+						let orc = if params.is_none() && md.params.iter().all(|p| p.optional) {
+							Err(format!("a call without params to a method whose parameters are all optional was rejected: {}", resp.get()))
+						} else if resp.get().contains("-32602") {
+							Ok(())
+						} else {
+							Err(format!("undecodable params answered {}", resp.get()))
+						};
 						(format!("r={code}"), orc)
 					}
 					(Ok(_), Some((k, _))) => (format!("r=WRONG-METHOD:{k}"), Err(format!("request for {name} ran {k}"))),
